@@ -117,5 +117,82 @@ for case in range(max(2, n // 10)):
             problems.append(dict(routine=name, what='a series of the collection was modified', series=[list(map(float, s)) for s in series]))
         if not same(r1, r2):
             problems.append(dict(routine=name, what='repeating the call gave a different result'))
-print('@@JSON@@' + json.dumps(dict(evaluations=evaluations, distinct_nontrivial=len(distinct), problems=problems[:10],
+# multivariate series: the same (length, ndim) content as C-ordered array, as the transposed view of an (ndim, length)
+# array (Fortran order), as every second row of a larger array, as a list of lists
+def nd_containers(rows):
+    c = np.array(rows, dtype=np.double)
+    f = np.array(rows, dtype=np.double).T.copy().T           # same content, Fortran-ordered memory
+    big = np.zeros((2 * c.shape[0], c.shape[1]))
+    big[::2] = c
+    wide = np.zeros((c.shape[0], 2 * c.shape[1]))
+    wide[:, ::2] = c
+    return {'c_order': c, 'f_order': f, 'strided_rows': big[::2], 'strided_cols': wide[:, ::2], 'list_of_lists': [list(r) for r in rows]}
+
+
+ND_ROUTINES = {
+    'dtw_ndim.distance': (lambda a, b, kw: dtw_ndim.distance(a, b, **kw), ('c_order', 'f_order', 'strided_rows', 'strided_cols')),
+    'dtw_ndim.distance_fast': (lambda a, b, kw: dtw_ndim.distance_fast(a, b, **kw), ('c_order', 'f_order', 'strided_rows', 'strided_cols')),
+    'dtw.distance(use_c,use_ndim)': (lambda a, b, kw: dtw.distance(a, b, use_c=True, use_ndim=True, **kw),
+                                     ('c_order', 'f_order', 'strided_rows', 'strided_cols')),
+    'dtw_ndim.warping_paths': (lambda a, b, kw: dtw_ndim.warping_paths(a, b, **kw), ('c_order', 'f_order', 'strided_rows')),
+    'dtw_ndim.warping_paths_fast': (lambda a, b, kw: dtw_ndim.warping_paths_fast(a, b, **kw), ('c_order', 'f_order', 'strided_rows', 'strided_cols')),
+    'ed.distance(ndim)': (lambda a, b, kw: ed.distance(a, b, use_ndim=True), ('c_order', 'f_order', 'strided_rows')),
+}
+for case in range(max(3, n // 3)):
+    l1, l2, nd = rng.randint(2, 6), rng.randint(2, 6), rng.randint(2, 3)
+    v1 = [[rng.choice(VALS) for _ in range(nd)] for _ in range(l1)]
+    v2 = [[rng.choice(VALS) for _ in range(nd)] for _ in range(l2)]
+    kw = {}
+    if rng.random() < 0.5:
+        kw['window'] = rng.randint(1, max(l1, l2) + 1)
+    for name, (fn, kinds) in ND_ROUTINES.items():
+        ref = None
+        for kind in kinds:
+            a, b = nd_containers(v1)[kind], nd_containers(v2)[kind]
+            sa, sb = snapshot(a), snapshot(b)
+            try:
+                r1 = fn(a, b, dict(kw))
+                r2 = fn(a, b, dict(kw))
+            except Exception as e:      # noqa
+                problems.append(dict(routine=name, container=kind, s1=v1, s2=v2, kw=kw, what='raised %s: %s' % (type(e).__name__, str(e)[:100])))
+                continue
+            evaluations += 2
+            distinct.add((name, kind, case))
+            if snapshot(a) != sa or snapshot(b) != sb:
+                problems.append(dict(routine=name, container=kind, s1=v1, s2=v2, kw=kw, what='an input series was modified'))
+            if not same(r1, r2):
+                problems.append(dict(routine=name, container=kind, s1=v1, s2=v2, kw=kw, what='repeating the call gave a different result'))
+            if ref is None:
+                ref = (kind, r1)
+            elif not same(ref[1], r1):
+                problems.append(dict(routine=name, container=kind, s1=v1, s2=v2, kw=kw,
+                                     what='result differs between containers %s and %s' % (ref[0], kind)))
+# collections given as one 2-D matrix (C order, Fortran order, strided) and as a list of arrays
+for case in range(max(2, n // 10)):
+    k, ln = rng.randint(2, 4), rng.randint(2, 5)
+    rows = [[rng.choice(VALS) for _ in range(ln)] for _ in range(k)]
+    conts = nd_containers(rows)
+    conts['list_of_arrays'] = [np.array(r) for r in rows]
+    for name, fn in (('dtw.distance_matrix', lambda s: dtw.distance_matrix(s)),
+                     ('dtw.distance_matrix_fast', lambda s: dtw.distance_matrix_fast(s, parallel=False)),
+                     ('dtw.distance_matrix_fast(block)', lambda s: dtw.distance_matrix_fast(s, block=((0, k - 1), (1, k)), parallel=False))):
+        ref = None
+        for kind in ('c_order', 'f_order', 'strided_rows', 'strided_cols', 'list_of_arrays'):
+            s = conts[kind]
+            snap = [snapshot(x) for x in s] if isinstance(s, list) else snapshot(s)
+            try:
+                r1 = fn(s)
+            except Exception as e:      # noqa
+                problems.append(dict(routine=name, container=kind, rows=rows, what='raised %s: %s' % (type(e).__name__, str(e)[:100])))
+                continue
+            evaluations += 1
+            distinct.add((name, kind, case))
+            if ([snapshot(x) for x in s] if isinstance(s, list) else snapshot(s)) != snap:
+                problems.append(dict(routine=name, container=kind, rows=rows, what='the collection was modified'))
+            if ref is None:
+                ref = (kind, r1)
+            elif not same(ref[1], r1):
+                problems.append(dict(routine=name, container=kind, rows=rows,
+                                     what='result differs between containers %s and %s' % (ref[0], kind)))
+print('@@JSON@@' + json.dumps(dict(evaluations=evaluations, distinct_nontrivial=len(distinct), problems=problems[:300],
                                    n_problems=len(problems), samples=samples)))
